@@ -9,7 +9,7 @@
            17 k base min max  omax minlevel maxlevel
               st nmajor major.. nminor minor..                      Ticks(o)      (st 0 ok, 2 panic)
               nlev { level count st nticks tick.. }*                CountTicks / TicksAtLevel
-              st nmin nmax  st nmin2 nmax2                          Nice(o) once, twice
+              st nmin nmax map(nmin) map(nmax)  st nmin2 nmax2      Nice(o) once (then Map of the new ends), twice
               st nmajor' major'..                                   Ticks(o) after Nice(o)
 
    Floor/ceil decisions within rounding distance of their threshold are "borderline"
@@ -59,14 +59,14 @@ Definition p_lev : parser levobs := do l <- pZ; do c <- pZ; do st <- pZ; do t <-
 Record scobs := mkSc {
   so_st : Z; so_major : list xreal; so_minor : list xreal;
   so_levels : list levobs;
-  so_nst : Z; so_nmin : xreal; so_nmax : xreal;
+  so_nst : Z; so_nmin : xreal; so_nmax : xreal; so_map0 : xreal; so_map1 : xreal;
   so_nst2 : Z; so_nmin2 : xreal; so_nmax2 : xreal;
   so_st3 : Z; so_major3 : list xreal }.
 Definition p_scobs : parser scobs :=
   do st <- pZ; do ma <- plist pX; do mi <- plist pX; do lv <- plist p_lev;
-  do nst <- pZ; do a <- pX; do b <- pX; do nst2 <- pZ; do a2 <- pX; do b2 <- pX;
+  do nst <- pZ; do a <- pX; do b <- pX; do m0 <- pX; do m1 <- pX; do nst2 <- pZ; do a2 <- pX; do b2 <- pX;
   do st3 <- pZ; do ma3 <- plist pX;
-  pret (mkSc st ma mi lv nst a b nst2 a2 b2 st3 ma3).
+  pret (mkSc st ma mi lv nst a b m0 m1 nst2 a2 b2 st3 ma3).
 
 Definition first_last (l : list xreal) : option (xreal * xreal) :=
   match l with [] => None | x :: _ => Some (x, last l x) end.
@@ -91,7 +91,9 @@ Definition nice_laws (omax : Z) (found : bool) (tolv : Q -> Q) (ob : scobs) : li
          match first_last (so_major3 ob) with
          | Some (f, l) => xwithin (tolv a) (XFin a) f && xwithin (tolv b) (XFin b) l
          | None => false
-         end, 41%Z) ]
+         end, 41%Z);
+        (* the niced object is a consistent scale: Map(new Min) = 0, Map(new Max) = 1 *)
+        (Qeqb a b || (xwithin e12 (XFin 0) (so_map0 ob) && xwithin e12 (XFin 1) (so_map1 ob)), 43%Z) ]
   | _, _ => [(false, 42%Z)]
   end.
 
@@ -108,14 +110,18 @@ Definition lin_amb_level (base eb : Z) (mn mx : Q) (roundOut : bool) (level : Z)
   else near_int ((mn - slack) / sp) || near_int ((mx + slack) / sp).
 Fixpoint amb_window (f : Z -> bool) (n : nat) (l : Z) : bool :=
   match n with O => false | S k => f l || amb_window f k (l + 1)%Z end.
-(* the levels between the code's guess and the outcome lie within [c-6, c+12]; clipped to the level window *)
+(* A floor/ceil within rounding of its threshold can change a count by one (two decisions:
+   by two).  That matters for the level search only at a level whose exact count is within 2
+   of Max, and for the tick values at the chosen level and the one below.  The levels between
+   the code's guess and the outcome lie within [c-6, c+12]; clipped to the level window. *)
 Definition lin_amb (o : tickopts) (base eb : Z) (mn mx : Q) (roundOut : bool) (r : flres) : bool :=
   match level_bounds o with
   | None => false
   | Some (lo, hi) =>
       let c := match r with FL_ok l => l | _ => hi end in
       let a := Z.max lo (c - 6) in let b := Z.min hi (c + 12) in
-      amb_window (lin_amb_level base eb mn mx roundOut) (Z.to_nat (b - a + 1)) a
+      amb_window (fun l => ((Z.abs (lin_count base eb mn mx roundOut l - o_max o) <=? 2)%Z || (l =? c)%Z || (l =? c - 1)%Z)
+                           && lin_amb_level base eb mn mx roundOut l) (Z.to_nat (b - a + 1)) a
   end.
 
 (* Above level [lin_cap] the spacing eb^(l/2) >= 2^(l/2) exceeds 8 (|mn| + |mx| + 1), so the
@@ -210,6 +216,13 @@ Fixpoint minor_amb (n : nat) (b f : Z) (emin emax : Q) : bool :=
   | S m => minor_amb_run (Z.to_nat (b - 1)) 1 (qpow b f) emin emax || minor_amb m b (f + 1)%Z emin emax
   end.
 
+(* above level [log_cap] 2^level exceeds every admitted exponent in absolute value, so
+   firstN and lastN (quotients by 2^level) no longer change: the count is constant *)
+Definition log_cap (e : logexp) : Z :=
+  Z.log2 (Z.abs (le_in_lo e) + Z.abs (le_in_hi e) + Z.abs (le_out_lo e) + Z.abs (le_out_hi e) + 1) + 2.
+Definition log_count_capped (e : logexp) (roundOut : bool) (level : Z) : Z :=
+  log_count e roundOut (Z.min level (log_cap e)).
+
 Definition check_log : parser (list Z) :=
   do base <- pZ; do mn <- pQ; do mx <- pQ; do omax <- pZ; do minl <- pZ; do maxl <- pZ;
   do ob <- p_scobs;
@@ -220,14 +233,15 @@ Definition check_log : parser (list Z) :=
   let '(neg, emin, emax) := log_fold mn mx in
   let e := log_exps base emin emax in
   let degenerate := Qeqb mn mx in
-  let r := find_level o (log_count e false) 0 in
-  let rn := find_level o (log_count e true) 0 in
+  let r := if degenerate then FL_fail else find_level o (log_count_capped e false) 0 in
+  let rn := if degenerate then FL_fail else find_level o (log_count_capped e true) 0 in
   let '(f0, l0) := log_first_last e true 0 in
-  let mamb := minor_amb (Z.to_nat (l0 - f0 + 1)) base f0 emin emax in
   let uses_minor := match r with FL_ok l => (l <=? 0)%Z | _ => false end in
+  let mamb := if uses_minor || existsb (fun lv => (lv_level lv <? 0)%Z) (so_levels ob)
+              then minor_amb (Z.to_nat (l0 - f0 + 1)) base f0 emin emax else false in
   let amb_t := negb degenerate && (le_amb e || (uses_minor && mamb)) in
   let ticks_ok :=
-    match log_ticks base mn mx o with
+    match log_ticks_gen log_count_capped base mn mx o with
     | TR_ticks ma mi => (so_st ob =? 0)%Z && close_list tolv ma (so_major ob) && close_list tolv mi (so_minor ob)
     | TR_none => (so_st ob =? 0)%Z && match so_major ob, so_minor ob with [], [] => true | _, _ => false end
     | TR_panic => false
@@ -237,7 +251,7 @@ Definition check_log : parser (list Z) :=
                     close_list tolv (log_ticks_at' base e neg emin emax false l) (lv_ticks lv),
                     le_amb e || ((l <? 0)%Z && mamb))) (so_levels ob) in
   let lv_ok := forallb fst lv in let lv_amb := existsb snd lv in
-  let '(x, y) := log_nice base mn mx o in
+  let '(x, y) := log_nice_gen log_count_capped base mn mx o in
   let nice_ok := (so_nst ob =? 0)%Z && xwithin (tolv x) (XFin x) (so_nmin ob) && xwithin (tolv y) (XFin y) (so_nmax ob) in
   let changed := negb (Qeqb x mn && Qeqb y mx) in
   let amb_n := negb degenerate && le_amb e in
